@@ -236,7 +236,13 @@ def mk_eq(a: S, b: S) -> S:
     if _non_numeric(a) or _non_numeric(b):
         x, y = sorted([a, b], key=skey)
         return ("cmp", "seq", x, y)
-    return ("eq0", (to_poly(a) - to_poly(b)).leading_sign_normalised().to_s())
+    p = (to_poly(a) - to_poly(b)).leading_sign_normalised()
+    # a length is never negative: len(x) == 0 is 'not (len(x) > 0)' (one form for the emptiness test)
+    if len(p.t) == 1:
+        (mono, coef), = p.t.items()
+        if len(mono) == 1 and mono[0][1] == 1 and isinstance(mono[0][0], tuple) and mono[0][0][:2] == ("c", ("g", "len")):
+            return ("not", ("lt0", (-to_poly(mono[0][0])).to_s()))
+    return ("eq0", p.to_s())
 
 
 def is_enum_const(s: S) -> bool:
@@ -290,7 +296,35 @@ def mk_if(cond: S, then: tuple, orelse: tuple) -> S:
     return ("if", cond, then, orelse)
 
 
+_BOOL_TAGS = ("lt0", "not", "and", "or", "eq0", "ne0", "cmp")
+
+
+def _boolean(s: S) -> bool:
+    if s in (K_TRUE, K_FALSE):
+        return True
+    if isinstance(s, tuple) and s:
+        if s[0] in _BOOL_TAGS:
+            return True
+        if s[0] == "c" and s[1] in (("g", "all"), ("g", "any"), ("g", "isinstance"), ("g", "bool"), ("g", "callable")):
+            return True
+        if s[0] == "ite":
+            return _boolean(s[2]) and _boolean(s[3])
+    return False
+
+
 def mk_ite(cond: S, a: S, b: S) -> S:
+    if a == b:
+        return a
+    # a conditional between truth values is a formula: (a if c else False) == (c and a), ...
+    if _boolean(a) and _boolean(b):
+        if b == K_FALSE:
+            return mk_and([cond, a])
+        if a == K_FALSE:
+            return mk_and([mk_not(cond), b])
+        if a == K_TRUE:
+            return mk_or([cond, b])
+        if b == K_TRUE:
+            return mk_or([mk_not(cond), a])
     if _negative(cond):
         return ("ite", mk_not(cond), b, a)
     return ("ite", cond, a, b)
@@ -1547,7 +1581,7 @@ class Normalizer:
 
     def __init__(self, raw_block: tuple, keep_identity: bool = True):
         self.rounds: list = []
-        block = _if_convert(_ret_peephole(raw_block))
+        block = _param_versions(_if_convert(_ret_peephole(raw_block)))
         defs = single_defs(block, keep_identity)
         for _ in range(6):
             if not defs:
@@ -1619,6 +1653,12 @@ def _if_convert(block: tuple) -> tuple:
                         for v in dict.fromkeys(x[1] for x in st[2] if is_set(x)):
                             out.append(("set", v, mk_ite(st[1], a[v], b[v])))
                         continue
+                if st[2] and not st[3] and all(isinstance(x, tuple) and len(x) == 3 and x[0] == "set" and isinstance(x[1], tuple) and x[1][:1] == ("p",)
+                                               for x in st[2]) and len({x[1] for x in st[2]}) == len(st[2]):
+                    # 'if c: param = e' : the parameter always has a value, so this is 'param = e if c else param'
+                    for x in st[2]:
+                        out.append(("set", x[1], mk_ite(st[1], x[2], x[1])))
+                    continue
                 if only_sets(st[2]) and all(is_set(x) for x in st[2]) and not st[3] and out:
                     a = arm_env(st[2])
                     k = len(a)
@@ -1638,6 +1678,29 @@ def _if_convert(block: tuple) -> tuple:
             elif st[0] == "with" and len(st) == 3:
                 st = ("with", st[1], _if_convert(st[2]))
         out.append(st)
+    return tuple(out)
+
+
+def _param_versions(block: tuple) -> tuple:
+    """a parameter that is re-defined once, at the top level of the function (``if x < 0: x = default``), is from there on
+    that new value: the statements that follow read the value, the re-definition itself disappears -- so the spelling
+    with a fresh local (``cut = default if x < 0 else x``) has the same form"""
+    def sets_of(b, acc):
+        for st in b:
+            if isinstance(st, tuple) and st:
+                if st[0] in ("set", "aug") and isinstance(st[1 if st[0] == "set" else 2], tuple) and st[1 if st[0] == "set" else 2][:1] == ("p",):
+                    acc.append(st[1 if st[0] == "set" else 2])
+                for x in st:
+                    if isinstance(x, tuple) and x and isinstance(x[0], tuple):
+                        sets_of(x, acc)
+    allsets: list = []
+    sets_of(block, allsets)
+    out = list(block)
+    for k, st in enumerate(block):
+        if isinstance(st, tuple) and len(st) == 3 and st[0] == "set" and isinstance(st[1], tuple) and st[1][:1] == ("p",) and allsets.count(st[1]) == 1 \
+                and isinstance(st[2], tuple) and st[2][:1] == ("ite",) and st[1] in (st[2][2], st[2][3]):     # a conditional default only
+            rest = Sigma(raw_subst={st[1]: st[2]}).apply(tuple(out[k + 1:]))
+            return _param_versions(tuple(out[:k]) + tuple(rest))
     return tuple(out)
 
 
